@@ -119,7 +119,10 @@ func c11Dec(r *rng, id string) {
 
 func tok(b []byte) string { return fmt.Sprintf("%d.%d", len(b), digest(b)) }
 
-func c11Pkt(r *rng, id string) {
+func c11Pkt(r *rng, id string) { pktLeg("C11", r, id) }
+
+// pktLeg: a real sender packs its queues into packets, a real receiver unpacks them (also run under C12).
+func pktLeg(prop string, r *rng, id string) {
 	c := ccfg{udp: []int{512, 1400, 1400, 2000, 9000, 508, 1404, 1413}[r.intn(8)], label: labelOf([]int{0, 0, 1, 7, 255}[r.intn(5)]),
 		compress: r.chance(1, 4), verifyIn: true, verifyOut: true, proto: 2}
 	// the stages of a rolling encryption enablement: a keyring with outgoing and incoming verification
@@ -136,7 +139,7 @@ func c11Pkt(r *rng, id string) {
 	}
 	snd, err := newCnode(c)
 	if err != nil {
-		emit("C11 pkt id=%s err=create", id)
+		emit("%s pkt id=%s err=create", prop, id)
 		return
 	}
 	defer snd.m.Shutdown()
@@ -145,7 +148,7 @@ func c11Pkt(r *rng, id string) {
 	rc.verifyIn = c.verifyOut // the receiver accepts what this sender produces
 	rcv, err := newCnode(rc)
 	if err != nil {
-		emit("C11 pkt id=%s err=create", id)
+		emit("%s pkt id=%s err=create", prop, id)
 		return
 	}
 	defer rcv.m.Shutdown()
@@ -182,8 +185,13 @@ func c11Pkt(r *rng, id string) {
 	nUser := []int{0, 0, 2, 40, 300, 700}[r.intn(6)]
 	picked := map[int]bool{}
 	var userMsgs [][]byte
+	// a quarter of the runs: only tiny messages, so that several hundred parts fit into one packet budget
+	tiny := r.chance(1, 4)
 	for i := 0; i < nUser; i++ {
 		p := mk([]int{0, 1, 2, 3, 10, 50}[r.intn(6)])
+		if tiny {
+			p = mk(r.intn(3))
+		}
 		userMsgs = append(userMsgs, p)
 		idx := i
 		snd.del.q.QueueBroadcast(&finB{ubc{p}, func() { picked[idx] = true }})
@@ -249,7 +257,7 @@ func c11Pkt(r *rng, id string) {
 		}
 		return strings.Join(x, ",")
 	}
-	emit("C11 pkt id=%s udp=%d label=%d enc=%s vin=%d vout=%d comp=%d crc=%d op=%s prim=%d lens=%s wire=%s picked=%s got=%s panic=%d",
+	emit("%s pkt id=%s udp=%d label=%d enc=%s vin=%d vout=%d comp=%d crc=%d op=%s prim=%d lens=%s wire=%s picked=%s got=%s panic=%d", prop,
 		id, c.udp, len(c.label), enc, b2i(c.verifyIn), b2i(c.verifyOut), b2i(c.compress), b2i(crc), op, prim, j(lens), j(wire), j(pickedToks), j(gotToks), b2i(panicked || rpanic))
 }
 
